@@ -268,6 +268,12 @@ func (ef *Filter) Process(ctx context.Context, e *eventlogger.Event) (*eventlogg
 						return nil, fmt.Errorf("%s: %w", op, err)
 					}
 				}
+				if f.Kind() == reflect.Interface {
+					f = f.Elem()
+					if !f.IsValid() {
+						continue // nil interface
+					}
+				}
 				if f.Kind() == reflect.Ptr {
 					f = f.Elem()
 				}
@@ -410,6 +416,12 @@ func (ef *Filter) filterField(ctx context.Context, v reflect.Value, filterOverri
 					if fieldIsTaggable && !opts.withIgnoreTaggable {
 						if err := ef.filterTaggable(ctx, fieldTaggedInterface, filterOverrides, tm, opt...); err != nil {
 							return fmt.Errorf("%s: %w", op, err)
+						}
+					}
+					if f.Kind() == reflect.Interface {
+						f = f.Elem()
+						if !f.IsValid() {
+							continue // nil interface
 						}
 					}
 					if f.Kind() == reflect.Ptr {
